@@ -42,7 +42,7 @@ def children_of(t):
     return [c[1] if pairs else c for c in t[start:]]
 
 
-def generate(gen, tier):
+def _generate_model_cases(gen, tier):
     rng = gen.rng
     n = 250 if tier == 'quick' else 8000
     cases = []
@@ -105,12 +105,31 @@ def compare(line, impl_reply, model_reply):
     return impl_reply == model_reply
 
 
+def generate(gen, tier):
+    cases = _generate_model_cases(gen, tier)
+    # order-free stream: key sets outside the model's key universe (props/exotic.py); oracle only, no model lines
+    n = 200 if tier == 'quick' else 5000
+    for _ in range(n):
+        cases.append({'lines': [], 'o': {'exotic': gen.rng.randrange(10**9)}})
+    return cases
+
+
 def nontrivial(case):
+    if 'exotic' in case['o']:
+        return True
     t = parse(case['o']['tree'])
     return not isinstance(t, Atom) and t[0] != 'L'
 
 
 def distribution(cases):
+    n_exotic = sum(1 for c in cases if 'exotic' in c['o'])
+    cases = [c for c in cases if 'exotic' not in c['o']]
+    d0 = _distribution(cases)
+    d0['exotic_key_cases'] = n_exotic
+    return d0
+
+
+def _distribution(cases):
     d = {}
     for c in cases:
         k = c['o']['class']
@@ -119,6 +138,10 @@ def distribution(cases):
 
 
 def oracle(impl, o):
+    if 'exotic' in o:
+        import optree as _optree
+        from props import exotic
+        return exotic.check_C06(_optree, o['exotic'])
     u = impl.u
     fails = []
     try:
